@@ -254,7 +254,15 @@ func c08Sem(r *h.Result, rng *h.Rng, n int) error {
 		}
 		class, stages := fields[len(fields)-2], fields[len(fields)-1]
 		r.Count("sem:class:" + class)
-		if strings.HasPrefix(class, "proved:") {
+		if strings.HasPrefix(class, "proved-in-timestamp-order:") {
+			r.Count("sem:proved-in-timestamp-order")
+			if ns, _ := strconv.Atoi(stages); ns >= 3 {
+				r.Count("sem:proved-in-timestamp-order:stages>=3")
+			}
+			for _, x := range f {
+				r.Count("sem:proved-in-timestamp-order:" + x)
+			}
+		} else if strings.HasPrefix(class, "proved:") {
 			r.Count("sem:proved")
 			ns, _ := strconv.Atoi(stages)
 			switch {
@@ -274,7 +282,7 @@ func c08Sem(r *h.Result, rng *h.Rng, n int) error {
 			if cases[i]["has_cmp"] == true {
 				r.Count("sem:proved:comparison")
 			}
-		} else {
+		} else if !strings.HasPrefix(class, "proved-in-timestamp-order:") {
 			r.Count("sem:searched")
 		}
 		switch {
@@ -301,7 +309,7 @@ func c08Sem(r *h.Result, rng *h.Rng, n int) error {
 			if isIn("agg-without-grouping", f) {
 				key = "C08/agg-without-grouping-keeps-streams"
 			}
-			if strings.HasPrefix(class, "proved:") {
+			if strings.HasPrefix(class, "proved:") || strings.HasPrefix(class, "theorem-rhs-differs:") {
 				// cannot happen while the theorem and the driver are built from the same definitions
 				key = "C08/proved-class-differs:" + class
 			}
@@ -316,6 +324,8 @@ func c08Sem(r *h.Result, rng *h.Rng, n int) error {
 		"sem:class:proved:samples:range", "sem:class:proved:samples:agg", "sem:class:proved:samples:topk(range)", "sem:class:proved:samples:topk(agg)",
 		"sem:class:proved:metrics_15s:range", "sem:class:proved:metrics_15s:agg",
 		"sem:proved:stages>=3", "sem:proved:step>range", "sem:proved:comparison", "sem:proved:non-empty-result",
+		"sem:class:proved-in-timestamp-order:samples:range", "sem:class:proved-in-timestamp-order:samples:agg",
+		"sem:class:proved-in-timestamp-order:samples:topk(agg)", "sem:proved-in-timestamp-order:stages>=3",
 	} {
 		if r.Distribution[need] == 0 {
 			return fmt.Errorf("c08sem: no case of %s among %d (the stream no longer exercises a class plan_metric_correct covers)", need, len(ans))
